@@ -213,13 +213,15 @@ struct rp_split {
 };
 
 static int
-rp_unframe(int serial, const unsigned char *w, size_t n, struct rp_split *s)
+rp_unframe_into(int serial, const unsigned char *w, size_t n, unsigned char *rawbase, size_t stride, int maxf,
+                size_t *lens)
 {
     int nf = 0;
     size_t i = 0;
     while (i < n) {
-        if (nf >= 8)
+        if (nf >= maxf)
             return -1;
+        unsigned char *rawf = rawbase + (size_t)nf * stride;
         size_t o = 0;
         if (serial) {
             int done = 0;
@@ -240,9 +242,9 @@ rp_unframe(int serial, const unsigned char *w, size_t n, struct rp_split *s)
                     else
                         return -1;
                 }
-                if (o >= sizeof s->raw[0])
+                if (o >= stride)
                     return -1;
-                s->raw[nf][o++] = c;
+                rawf[o++] = c;
             }
             if (!done)
                 return -1;
@@ -258,20 +260,26 @@ rp_unframe(int serial, const unsigned char *w, size_t n, struct rp_split *s)
                 if (!(c & 0x80))
                     break;
             }
-            if (len > n - i || len > sizeof s->raw[0])
+            if (len > n - i || len > stride)
                 return -1;
-            memcpy(s->raw[nf], w + i, (size_t)len);
+            memcpy(rawf, w + i, (size_t)len);
             o = (size_t)len;
             i += (size_t)len;
         }
-        s->len[nf++] = o;
+        lens[nf++] = o;
     }
     return nf;
 }
 
+static int
+rp_unframe(int serial, const unsigned char *w, size_t n, struct rp_split *s)
+{
+    return rp_unframe_into(serial, w, n, &s->raw[0][0], sizeof s->raw[0], 8, s->len);
+}
+
 /* ---------------- harness side of a RegP ---------------- */
 
-#define RP_WIREMAX 70000
+#define RP_WIREMAX 330000
 #define RP_MAXBLOCKS 16
 
 struct rp_block {
@@ -288,6 +296,8 @@ struct rp_becall {
     size_t room;       /* octets available behind the pointer inside its block (SIZE_MAX: pointer not in a live block) */
     unsigned char payload[300];
     size_t plcopy;     /* octets of payload copied (writes) */
+    size_t plseen;     /* octets of payload that were readable behind the pointer (writes) */
+    uint64_t plhash;   /* hash over all of them */
     const void *buf;
 };
 
@@ -449,6 +459,16 @@ rp_sink_chunk(void *drv, const void *p, size_t n)
     return (ssize_t)n;
 }
 
+static uint64_t
+rp_hash(const void *p, size_t n)
+{
+    const unsigned char *b = p;
+    uint64_t h = 1469598103934665603ull;
+    for (size_t i = 0; i < n; i++)
+        h = (h ^ b[i]) * 1099511628211ull;
+    return h;
+}
+
 static unsigned char
 rp_fill(unsigned char seed, size_t i)
 {
@@ -474,8 +494,13 @@ rp_be(int write, int ws, uint32_t addr, size_t n, void *rbuf, const void *wbuf)
         }
         if (write) {
             c->plcopy = need < sizeof c->payload ? need : sizeof c->payload;
-            if (c->room != SIZE_MAX)
+            c->plseen = 0;
+            c->plhash = 0;
+            if (c->room != SIZE_MAX) {
                 memcpy(c->payload, wbuf, c->plcopy);
+                c->plseen = need;
+                c->plhash = rp_hash(wbuf, need);
+            }
         } else if (h->verdict.status == RP_RESP_ACK && c->room != SIZE_MAX) {
             unsigned char *o = rbuf;
             for (size_t i = 0; i < need; i++)
